@@ -39,7 +39,7 @@ for line in res.splitlines():
     m2=re.match(r'^\s+class=(\S+)',line)
     if m2 and caught: caught[list(caught)[-1]]["classes"].append(m2.group(1))
 readme=open(dst+"/README.md").read() if True else ""
-meta={"id":f"{id}-{x}","breaks_property":id,"source":"fresh sub-agent given only the property record and a scratch worktree",
+meta={"id":f"{id}-{x}","breaks_property":id[:3],"source":"fresh sub-agent given only the property record and a scratch worktree",
  "needs_to_manifest":"see README.md (written by the author of the change)",
  "confirmed":{"repo_tests_with_change":tests,"demonstration_exit_on_clean_tree":int(rc_clean),"demonstration_exit_with_change":int(rc_mut)},
  "checks_run":{"tier":tier,"results":caught}}
